@@ -6,8 +6,8 @@
    generator emits for every rule x identifier of the corpus; the compiled accessors are run against the model (T2) and
    against the specification below (T3) by vlib/props/C16.py. *)
 From Coq Require Import List NArith.
-From PT Require Import Model.Base Model.Stack Model.Texpr Model.Sem Model.Ast Model.Translate Model.GenEnv Model.Getter.
-From PT Require Import Proofs.GetterProofs Proofs.GetterProofs2.
+From PT Require Import Model.Base Model.Stack Model.Texpr Model.Sem Model.Ast Model.Translate Model.GenEnv Model.Getter Model.GetterSpec.
+From PT Require Import Proofs.GetterProofs Proofs.GetterProofs2 Proofs.GetterProofs3.
 Import ListNotations.
 
 (* The specification [direct_refs x t]: the x rule nodes stored in the tree t itself, in storage (= mention = input) order,
@@ -114,3 +114,44 @@ Theorem C16_example_types :
   getter Example.xe (IdRule 3) = None /\ spec_type (IdRule 3) Example.xe = None.
 Proof. exact Example.getter_types. Qed.
 Print Assumptions C16_example_types.
+
+(* ---- which slot holds which node ------------------------------------------------------------------------
+   [spec_val x e t] (Model/GetterSpec.v) is the declarative STRUCTURED value of the accessor, by recursion on the expression
+   only (it uses nothing of the getter forest: no wrap / merge / join / flattenable): an identifier equal to x is the stored
+   node; `e?` is None when the stored option is None, else the inner value in an Option (unless it already is one); `e*` is the
+   Vec of the iterations' values; a sequence is the tuple of the values of the elements mentioning x, one slot per such element,
+   in order; a choice has one Option slot per alternative mentioning x: None unless that alternative was taken.
+   For every rule with accessors and every successful prefix parse, the emitted accessor returns exactly that value. *)
+Theorem C16_value_spec : forall eoi g I pred fuel r0 d x gn p t st',
+  r0 <> eoi -> lookup_rule (g_rules g) r0 = Some d ->
+  try_parse_partial (env_of eoi g I pred) fuel r0 = Ok (p, t) st' ->
+  lookup x (rule_getters d) = Some gn ->
+  exists c sp, t = NRule r0 (Some c) sp /\
+               has_shape (Translate.tr eoi (skip_of_kind (o_kind d)) (o_expr d)) c /\
+               spec_val x (o_expr d) c = Some (call_getter gn t).
+Proof. exact try_parse_partial_call_getter_value. Qed.
+Print Assumptions C16_value_spec.
+
+(* the structured specification refines the flat one *)
+Theorem C16_spec_val_flatten : forall eoi k e x t v,
+  has_shape (Translate.tr eoi k e) t -> spec_val x e t = Some v -> flatten_gval v = mention_refs x e t.
+Proof. exact spec_val_flatten. Qed.
+Print Assumptions C16_spec_val_flatten.
+
+(* r = { "a" ~ x | "b" ~ x ~ y } on "ax": the accessor x() is (Some(x@1..2), None); the value with the slots swapped has
+   the same type and the same flattening, and is NOT the specified one (a seeded change of the generator did exactly that) *)
+Theorem C16_slot_example :
+  match try_parse_partial (SlotExample.cenv [97; 120]%N) 40 0, getter SlotExample.ce SlotExample.rx, getter SlotExample.ce SlotExample.ry with
+  | Ok (p, NRule 0 (Some c) _) _, Some gx, Some gy =>
+      p = 2 /\
+      spec_val SlotExample.rx SlotExample.ce c = Some (VTuple [VOpt (Some (VRef (SlotExample.nx 1 2))); VOpt None]) /\
+      spec_val SlotExample.rx SlotExample.ce c <> Some (VTuple [VOpt None; VOpt (Some (VRef (SlotExample.nx 1 2)))]) /\
+      flatten_gval (VTuple [VOpt None; VOpt (Some (VRef (SlotExample.nx 1 2)))]) = mention_refs SlotExample.rx SlotExample.ce c /\
+      spec_val SlotExample.rx SlotExample.ce c = Some (eval_g gx c) /\
+      spec_val SlotExample.ry SlotExample.ce c = Some (VOpt None) /\
+      spec_val SlotExample.ry SlotExample.ce c = Some (eval_g gy c) /\
+      spec_val (IdRule 3) SlotExample.ce c = None
+  | _, _, _ => False
+  end.
+Proof. exact SlotExample.slot_ax. Qed.
+Print Assumptions C16_slot_example.
